@@ -12,7 +12,7 @@ from lib.common import log
 
 SPEC = common.SPEC / "observer"
 FLAGS = ["-O1", "-g", "-UNDEBUG", "-fsanitize=address,undefined", "-fno-sanitize=nonnull-attribute", "-fno-omit-frame-pointer"]
-PLAN = [("int", ["int", "long"]), ("uns", ["uns"]), ("flt", ["float", "double"]), ("fltc", ["fcoarse"]), ("flte", ["fexact", "dexact"]), ("str", ["str"])]
+PLAN = [("int", ["int", "long"]), ("thr", ["int"]), ("uns", ["uns"]), ("flt", ["float", "double"]), ("fltc", ["fcoarse"]), ("flte", ["fexact", "dexact"]), ("str", ["str"])]
 ASSUMPTIONS = [
     "floating point values are multiples of 1/4 and the tolerances are 0.3 and 1.5 (the latter larger than one increment), so every comparison and operation is exact in binary",
     "operations stay inside the model's value domain (no integer overflow, no integer division by zero); floating point instantiations also reach 2^24 / 2^53 (where adding 0.25 or 0.5 is absorbed) and the infinities produced by dividing a finite non-zero value by zero",
@@ -62,6 +62,7 @@ def check(pid, tier, seed):
     seen = set()
     for cfg0, types in PLAN:
         kind = "str" if cfg0 == "str" else cfg0
+        thrower = 1 if cfg0 == "thr" else 0
         cfg = cfg0 + ("_th" if tier == "thorough" else "")   # thorough: wider value domains (int -4..10, unsigned 0..10, float k/4 in [-3,3], strings up to 4)
         mcs.append(common.model_check(SPEC, "MC_Obs.tla", "MC_Obs_%s.cfg" % cfg, "ObservableP " + cfg))
         dot, dst = common.dump_graph(SPEC, "MC_Obs.tla", "MC_Obs_%s.cfg" % cfg, "ObservableP-" + cfg)
@@ -74,7 +75,7 @@ def check(pid, tier, seed):
             for pi, path in enumerate(paths):
                 for ty in types:
                     xid = "%s-%d-%d-%s" % (cfg, init % 100000, pi, ty)
-                    lines.append("X %s type=%s init=%s" % (xid, ty, enc(kind, g.states[init]["val"])))
+                    lines.append("X %s type=%s thrower=%d init=%s" % (xid, ty, thrower, enc(kind, g.states[init]["val"])))
                     lines += [step_line(g, ei, kind) for ei in path]
                     lines.append("E")
                     meta[xid] = (path, ty)
@@ -85,7 +86,7 @@ def check(pid, tier, seed):
         for wi, (init, path) in enumerate(pathcover.random_walks(g, wr, {"quick": 60, "thorough": 3000}[tier], 15, 60)):
             ty = types[wi % len(types)]
             xid = "%s-w%d-%s" % (cfg, wi, ty)
-            lines.append("X %s type=%s init=%s" % (xid, ty, enc(kind, g.states[init]["val"])))
+            lines.append("X %s type=%s thrower=%d init=%s" % (xid, ty, thrower, enc(kind, g.states[init]["val"])))
             lines += [step_line(g, ei, kind) for ei in path]
             lines.append("E")
             meta[xid] = (path, ty)
@@ -112,7 +113,9 @@ def check(pid, tier, seed):
                     prob = "step %d (%s): notifications %s, model says %s (subscriber, value)" % (i, name, got, want_notes)
                 elif r["val"] != enc(kind, st["val"]):
                     prob = "step %d (%s): value() = %s, model says %s" % (i, name, r["val"], enc(kind, st["val"]))
-                elif r["ret"] != enc(kind, st["ret"]):
+                elif bool(r.get("threw")) != bool(thrower and {n[0] for n in st["notes"]} >= {2}):
+                    prob = "step %d (%s): the operator %s, but subscriber 2 %s" % (i, name, "threw" if r.get("threw") else "returned normally", "was notified and throws" if thrower else "does not throw")
+                elif r["ret"] != enc(kind, st["ret"]) and not r.get("threw"):
                     prob = "step %d (%s): operator result %s, model says %s" % (i, name, r["ret"], enc(kind, st["ret"]))
                 if prob:
                     ops = [step_line(g, e2, kind)[2:] for e2 in path]
